@@ -150,6 +150,10 @@ def wiring_unit(kind):
         transition followed by exactly one da_step(state, reported acceptance prob, epoch.time_in_epoch, the target/gamma/kappa/t0
         the kernel was constructed with); the mixin takes the adaptive branch iff the epoch is an adaptation epoch."""
         c = ip.ctx
+        from contracts.c07 import install_pytree_models, tree_map_model
+        install_pytree_models(ip)
+        ip.models.setdefault("jax.tree_util.tree_map", tree_map_model)
+        ip.models.setdefault("jax.tree.map", tree_map_model)
         for tune in ((True, False) if kind == "MH" else (None,)):
             k = sym_kernel(ip, kind, **({"da_tune_step_size": tune} if kind == "MH" else {}))
             ks = sym_da_state(ip, kind)
